@@ -703,6 +703,17 @@ def c17(prop, tier, seed, t0):
         viol.append((why, vlib.write_replay(prop, acheck, sc, why, seed, 100 + i, kind="automata")))
     seq_events += atot["events"]
 
+    # (e) preemption in the middle of a request: interface a's handler suspended at its k-th port call while
+    # interface b serves a request from start to end (every request kind on either side)
+    prng = random.Random(seed ^ 0xE17)
+    pscs = [campaigns.sc_preempt("c17-preempt-%d" % i, prng.randrange(1 << 30), list(range(1, 19)),
+                                 kinds=("discover", "query", "large", "emit", "probe")) for i in range(2 if tier == "quick" else 30)]
+    pcheck = {"C02", "C05", "C06", "C07", "C08", "SNAP"}
+    ptot, pviol, _pk = run_campaign(prop, pcheck, pscs, seed, work, vlib.build_responder("asan"))
+    for i, (sc, why) in enumerate(pviol[:4]):
+        viol.append((why, vlib.write_replay(prop, pcheck, sc, why, seed, 200 + i, kind="responder")))
+    seq_events += ptot["events"]
+
     for what in known:
         print("KNOWN-FINDING: property=C17 %s" % what)
     for why, rp in viol[:8]:
